@@ -396,6 +396,9 @@ func trimInts(x []int) []int {
 // c07GenSmall generates a (usually small) frame so that exhaustive cutting is affordable.
 func c07GenSmall(rng *lab.Rand, name string, maxBody int, small bool) refFrame {
 	for {
+		if name == "boltv2" && rng.Chance(1, 6) {
+			return genTiny(rng, name) // minimal frames, a third of them bolt v1 frames
+		}
 		rf := genFrame(rng, name, maxBody)
 		if small && len(rf.Raw) > 110 {
 			// shrink: build a minimal frame of that codec instead
@@ -413,6 +416,11 @@ func genTiny(rng *lab.Rand, name string) refFrame {
 	switch name {
 	case "bolt", "boltv2":
 		f := boltFields{V2: name == "boltv2", Ver1: 1, Ver: 1, Codec: 1, ID: uint32(1 + rng.Intn(1000))}
+		if f.V2 && rng.Chance(1, 3) {
+			// a bolt v1 frame on a boltv2 connection (the boltv2 codec hands them to the bolt codec): the smallest one is 20 bytes,
+			// shorter than the smallest boltv2 frame
+			f.V2 = false
+		}
 		switch kind {
 		case kindRequest:
 			f.CmdType, f.CmdCode = 1, 1
@@ -435,6 +443,13 @@ func genTiny(rng *lab.Rand, name string) refFrame {
 		rf.ID, rf.Class, rf.Body, rf.IDOff, rf.IDLen = uint64(f.ID), f.Class, f.Content, 5, 4
 		if f.V2 {
 			rf.IDOff = 6
+		}
+		if kind != kindHeartbeat && rng.Chance(1, 3) {
+			// the bare minimum: no class, no header, no content
+			f.Class, f.HeaderBlk, f.Content = nil, nil, nil
+			rf.Headers = nil
+			rf.Raw = buildBolt(f)
+			rf.Class, rf.Body = nil, nil
 		}
 	case "dubbo":
 		id := uint64(1 + rng.Intn(1000))
